@@ -313,4 +313,162 @@ theorem prepare_append_ws (L : Lexer τ) (ts extra : List (Spanned τ)) (h : ∀
     simp [h t ht]
   rw [this]; simp
 
+/-! ### texts the lexer rejects -/
+
+theorem lexPrefix_nil (L : Lexer τ) (off : Nat) : lexPrefix L [] off = [] := by
+  unfold lexPrefix; simp
+
+theorem lexPrefix_step (L : Lexer τ) (x : Bytes) (off : Nat) (t : τ) (n : Nat)
+    (hx : x ≠ []) (ht : L.tok x = some (t, n)) (hn : 0 < n) (hle : n ≤ x.length) :
+    lexPrefix L x off = ⟨t, off, off + n⟩ :: lexPrefix L (x.drop n) (off + n) := by
+  rw [lexPrefix]
+  simp [hx, ht, hn, hle]
+
+/-- inversion of a failing run: it fails at once (nothing was lexed), or after a first good token -/
+theorem lexBytes_err_inv (L : Lexer τ) (x : Bytes) (off : Nat) (e : LexErr)
+    (h : lexBytes L x off = .error e) :
+    (lexPrefix L x off = [] ∧ x ≠ [] ∧
+      ((L.tok x = none ∧ e = .lexError off) ∨
+       (∃ t n, L.tok x = some (t, n) ∧ ¬ (0 < n ∧ n ≤ x.length) ∧ e = .stuck off))) ∨
+    ∃ t n, x ≠ [] ∧ L.tok x = some (t, n) ∧ 0 < n ∧ n ≤ x.length ∧
+      lexBytes L (x.drop n) (off + n) = .error e ∧
+      lexPrefix L x off = ⟨t, off, off + n⟩ :: lexPrefix L (x.drop n) (off + n) := by
+  by_cases hx : x = []
+  · subst hx; rw [lexBytes_nil] at h; cases h
+  · rw [lexBytes] at h
+    simp only [hx, if_false] at h
+    cases ht : L.tok x with
+    | none =>
+      rw [ht] at h
+      left
+      refine ⟨by rw [lexPrefix]; simp [hx, ht], hx, Or.inl ⟨rfl, ?_⟩⟩
+      cases h; rfl
+    | some tn =>
+      obtain ⟨t, n⟩ := tn
+      rw [ht] at h
+      simp only at h
+      by_cases hn : 0 < n ∧ n ≤ x.length
+      · right
+        simp only [hn, and_self, dite_true] at h
+        cases hr : lexBytes L (x.drop n) (off + n) with
+        | ok rest => rw [hr] at h; simp [consOk] at h
+        | error e' =>
+          rw [hr] at h
+          simp only [consOk] at h
+          cases h
+          exact ⟨t, n, hx, rfl, hn.1, hn.2, hr, lexPrefix_step L x off t n hx ht hn.1 hn.2⟩
+      · left
+        simp only [hn, dite_false] at h
+        refine ⟨by rw [lexPrefix]; simp [hx, ht, hn], hx, Or.inr ⟨t, n, rfl, hn, ?_⟩⟩
+        cases h; rfl
+
+theorem lexPrefix_spans (L : Lexer τ) (x : Bytes) (off : Nat) :
+    ∀ t ∈ lexPrefix L x off, off ≤ t.start ∧ t.start < t.stop ∧ t.stop ≤ off + x.length := by
+  induction hlen : x.length using Nat.strongRecOn generalizing x off with
+  | _ len ih =>
+    by_cases hx : x = []
+    · subst hx; rw [lexPrefix_nil]; intro t ht; cases ht
+    · cases ht : L.tok x with
+      | none => rw [lexPrefix]; simp [hx, ht]
+      | some tn =>
+        obtain ⟨t, n⟩ := tn
+        by_cases hn : 0 < n ∧ n ≤ x.length
+        · rw [lexPrefix_step L x off t n hx ht hn.1 hn.2]
+          intro u hu
+          rcases List.mem_cons.1 hu with rfl | hu
+          · simp; omega
+          · have hl : (x.drop n).length < len := by simp [List.length_drop]; omega
+            have := ih _ hl (x.drop n) (off + n) rfl u hu
+            simp [List.length_drop] at this
+            omega
+        · rw [lexPrefix]; simp [hx, ht, hn]
+
+/-- a failing run fails at the same place, relabelled, when lexed at another base offset -/
+theorem lexBytes_shift_err (L : Lexer τ) (x : Bytes) (off d : Nat) (e : LexErr)
+    (h : lexBytes L x off = .error e) : lexBytes L x (off + d) = .error (e.shift d) := by
+  induction hlen : x.length using Nat.strongRecOn generalizing x off with
+  | _ len ih =>
+    rcases lexBytes_err_inv L x off e h with ⟨_, hx, he⟩ | ⟨t, n, hx, ht, hn, hle, hr, _⟩
+    · rcases he with ⟨ht, rfl⟩ | ⟨t, n, ht, hn, rfl⟩
+      · rw [lexBytes]; simp [hx, ht, LexErr.shift]
+      · rw [lexBytes]; simp [hx, ht, hn, LexErr.shift]
+    · have hl : (x.drop n).length < len := by simp [List.length_drop]; omega
+      have := ih _ hl (x.drop n) (off + n) hr rfl
+      rw [lexBytes_step L x (off + d) t n hx ht hn hle]
+      have e2 : off + d + n = off + n + d := by omega
+      rw [e2, this]; rfl
+
+/-- **Insertion at a token boundary of a text the lexer rejects.** `i` is the start of the text or the
+    end of one of the tokens lexed before the failure (after which insertion is allowed).  The edited
+    text is rejected too, for the same reason, at the moved offset. -/
+theorem lexBytes_insert_error (L : Lexer τ) (w : Bytes) (ws : List (τ × Nat)) (allowed : τ → Prop)
+    (hT : LexesAs L w ws) (hA : ∀ t, allowed t → AdjacentStable L w t) (hD : DistantStable L w)
+    (x : Bytes) (off i : Nat) (e : LexErr)
+    (h : lexBytes L x off = .error e) (hb : BoundaryOK allowed off i (lexPrefix L x off)) :
+    lexBytes L (insertAt x (i - off) w) off = .error (e.shift w.length) := by
+  induction hlen : x.length using Nat.strongRecOn generalizing x off with
+  | _ len ih =>
+    by_cases hi : i = off
+    · subst hi
+      rw [Nat.sub_self, insertAt_zero, hT x i, lexBytes_shift_err L x i w.length e h]
+      rfl
+    · rcases hb with hb | ⟨u, hu, hui, hua⟩
+      · exact absurd hb hi
+      · rcases lexBytes_err_inv L x off e h with ⟨hnil, _, _⟩ | ⟨t, n, hx, ht, hn, hle, hr, hpre⟩
+        · rw [hnil] at hu; cases hu
+        · rw [hpre] at hu
+          have hrest := lexPrefix_spans L (x.drop n) (off + n)
+          have hl : (x.drop n).length < len := by simp [List.length_drop]; omega
+          have hdl : (x.drop n).length = x.length - n := by simp [List.length_drop]
+          rcases List.mem_cons.1 hu with rfl | hu'
+          · simp only at hui hua
+            have hi' : i - off = n := by omega
+            have htok := hA t hua x n ht hn hle
+            have hins : insertAt x n w = x.take n ++ w ++ x.drop n := rfl
+            have hne : insertAt x n w ≠ [] := by
+              intro he
+              have h1 : (insertAt x n w).length = x.length + w.length := length_insertAt x w n
+              rw [he] at h1
+              simp only [List.length_nil] at h1
+              omega
+            have hlen2 : n ≤ (insertAt x n w).length := by rw [length_insertAt]; omega
+            rw [hi', lexBytes_step L (insertAt x n w) off t n hne (by rw [hins]; exact htok) hn hlen2]
+            have hd : (insertAt x n w).drop n = w ++ x.drop n := by
+              rw [hins, List.append_assoc]
+              have hl2 : (x.take n).length = n := by simp [List.length_take]; omega
+              have := List.drop_length_add_append (l₁ := x.take n) (l₂ := w ++ x.drop n) 0
+              simpa [hl2] using this
+            rw [hd, hT (x.drop n) (off + n), lexBytes_shift_err L (x.drop n) (off + n) w.length e hr]
+            rfl
+          · have hur := hrest u hu'
+            have hige : off + n < i := by omega
+            have hile : i ≤ off + x.length := by rw [hdl] at hur; omega
+            have hbr : BoundaryOK allowed (off + n) i (lexPrefix L (x.drop n) (off + n)) :=
+              Or.inr ⟨u, hu', hui, hua⟩
+            have hrec := ih _ hl (x.drop n) (off + n) hr hbr rfl
+            -- the next token exists because the prefix of the rest is not empty
+            rcases lexBytes_err_inv L (x.drop n) (off + n) e hr with ⟨hnil, _, _⟩ | ⟨t2, n2, _, ht2, hn2, _, _, hpre2⟩
+            · rw [hnil] at hu'; cases hu'
+            · have hfirst : off + n + n2 ≤ i := by
+                rw [hpre2] at hu'
+                rcases List.mem_cons.1 hu' with rfl | hu2
+                · simp at hui; omega
+                · have := lexPrefix_spans L ((x.drop n).drop n2) (off + n + n2) u hu2
+                  omega
+              have hj : i - off ≤ x.length := by omega
+              have hnj : n ≤ i - off := by omega
+              have hstable := hD x t n t2 n2 (i - off) ht hn hle ht2 hn2 (by omega) hj
+              obtain ⟨_, hdr⟩ := take_insertAt_prefix x w n (i - off) hnj hj
+              have hne : insertAt x (i - off) w ≠ [] := by
+                intro he
+                have h1 : (insertAt x (i - off) w).length = x.length + w.length := length_insertAt x w _
+                rw [he] at h1
+                simp only [List.length_nil] at h1
+                omega
+              have hlen2 : n ≤ (insertAt x (i - off) w).length := by rw [length_insertAt]; omega
+              rw [lexBytes_step L (insertAt x (i - off) w) off t n hne hstable hn hlen2, hdr]
+              have e3 : i - off - n = i - (off + n) := by omega
+              rw [e3, hrec]
+              rfl
+
 end RsslVerif.Lemmas.Trivia
